@@ -618,12 +618,29 @@ def r6(ctx, F, rule, sfx):
                         nbad += 1
                         ctx.bad(rule, 'shift-by-run-time-index:%s%s' % (strip_generics(b['path']).split('::')[-1], sfx), '%s of a %s by a run-time amount' % (st['rv']['op'], st['rv'].get('lty')),
                                 'membership / bookkeeping per plane in growable storage (Vec), never one bit per plane in a machine word', where(b, st.get('line')), key_extra='shift:' + strip_generics(b['path']))
+    # plane / vertex indices narrowed to a fixed-width integer (a successor table of u8 links holds 256 planes)
+    W = {'u8': 8, 'i8': 8, 'u16': 16, 'i16': 16, 'u32': 32, 'i32': 32, 'u64': 64, 'i64': 64, 'usize': 64, 'isize': 64, 'u128': 128, 'i128': 128}
+    ncast = nnarrow = 0
+    for b in scope:
+        for bl in b['blocks']:
+            if bl.get('cleanup'):
+                continue
+            for st in bl['stmts']:
+                if st['k'] == 'assign' and st['rv']['k'] == 'cast' and st['rv'].get('kind') == 'IntToInt':
+                    ncast += 1
+                    fr, to = (st['rv'].get('from_ty') or '').strip(), (st['rv'].get('ty') or '').strip()
+                    if st['rv']['x'].get('k') != 'const' and fr in W and to in W and W[to] < W[fr] and W[to] < 32:      # 2^32 planes of one cell are not reachable (memory); 2^8 and 2^16 are
+                        nnarrow += 1
+                        ctx.bad(rule, 'index-narrowed:%s%s' % (strip_generics(b['path']).split('::')[-1], sfx), 'a run-time %s narrowed to %s' % (fr, to),
+                                'plane and vertex indices keep the width of usize: no bound on the number of planes of a cell', where(b, st.get('line')), key_extra='narrow:' + strip_generics(b['path']))
+    ctx.check(rule, 'no-index-narrowing' + sfx, nnarrow == 0, '%d integer casts in the cycle and the clip routine, %d narrowing a run-time value' % (ncast, nnarrow), 'none', where(scope[0]), key_extra='narrow-total')
     # fixed-size arrays among the fields of the cycle
     a = F.adt('simple_cycle::SimpleCycle', required=False)
     fixed = []
     if a is not None:
         for f in a['variants'][0]['fields']:
-            if re.match(r'^\[.*; \d+\]$', f['ty'].strip()) or f['ty'].strip() in ('u64', 'u128', 'u32') and f['name'] not in ('start', 'len'):
+            if re.match(r'^\[.*; \d+\]$', f['ty'].strip()) or f['ty'].strip() in ('u64', 'u128', 'u32') and f['name'] not in ('start', 'len') \
+                    or re.search(r'Vec<\s*([ui](8|16))\b', f['ty']):
                 fixed.append('%s: %s' % (f['name'], f['ty']))
     ctx.check(rule, 'cycle-storage-grows-with-the-cell' + sfx, a is not None and not fixed, fixed or 'successor table and counters only', 'no fixed-size array / bit-set field in SimpleCycle', where(scope[0]) if a is None else '%s:%s' % (a['file'], a['line']), key_extra='fields')
     ctx.check(rule, 'no-shift-by-run-time-index' + sfx, nbad == 0, '%d bodies of the cycle and the clip routine scanned, %d shift operations, %d by a run-time amount' % (len(scope), n, nbad), 'none by a run-time amount', where(scope[0]), key_extra='shift-total')
